@@ -64,6 +64,9 @@ EXPECTED_PROBES = [
     "tcp_short_write",
     "tcp_connect_refused",
     "fallback_used_tcp",
+    "wait_started_exactly_at_deadline",
+    "wait_started_with_zero_time_left",
+    "udp_forged_scope_or_flow",
 ]
 
 _d = None
@@ -196,7 +199,13 @@ def _src(dest_kind, port, variant=None):
     if variant == "port":
         port = port + 1
     if af == socket.AF_INET:
+        if variant == "scope":
+            return (addr, port + 1)
         return (addr, port)
+    if variant == "scope":
+        return (addr, port, 0, 7)  # same address and port, other scope id (another interface)
+    if variant == "flow":
+        return (addr, port, 9, 0)
     return (addr, port, 0, 0)
 
 
@@ -306,7 +315,7 @@ def build_datagram(q, qwire, kind, arg, marker, rng_bytes):
 UDP_KINDS = [
     "genuine", "genuine", "wrong_id", "not_response", "wrong_opcode", "wrong_qtype", "wrong_qclass", "wrong_qname",
     "qname_case", "garbage", "cut", "bitflip", "trailing", "rcode_noq", "rcode_noq_nx", "tc_genuine", "tc_forged",
-    "tc_cut", "icmp", "empty", "forged_addr", "forged_port", "textual", "mcast_other", "extra_question", "noq_noerror",
+    "tc_cut", "icmp", "empty", "forged_addr", "forged_port", "textual", "mcast_other", "extra_question", "noq_noerror", "forged_scope", "forged_flow",
 ]
 
 
@@ -325,6 +334,14 @@ def gen_case(seed, tier):
         "qid": rng.randrange(65536),
         "timeout": rng.choice([2.0, 2.0, 0.5, 5.0]),
     }
+    if r < 0.03:
+        base["kind"] = "tick"
+        base["transport"] = rng.choice(["udp", "udp", "tcp"])
+        base["before"] = rng.choice([1e-5, 2e-5, 5e-5])
+        base["tick"] = rng.choice([2e-5, 1e-4])
+        base["late"] = rng.choice([0.01, 0.5, 20.0])
+        base["skip_kind"] = rng.choice(["wrong_id", "garbage", "not_response"])
+        return base
     if r < 0.55:
         base["kind"] = "udp"
         dest = rng.choice(["v4", "v4", "v6", "m4", "m6"])
@@ -349,6 +366,14 @@ def gen_case(seed, tier):
         if rng.random() < 0.2 and dels:
             j = rng.randrange(len(dels))
             dels.insert(j + 1, dict(dels[j], t=round(dels[j]["t"] + 0.00005, 6), dup=True))
+        if rng.random() < 0.12:
+            # a datagram that must be ignored lands exactly on the deadline, the genuine reply later:
+            # the wait that follows starts with zero time left
+            dels = [d for d in dels if d["t"] < base["timeout"]]
+            dels.append({"k": rng.choice(["wrong_id", "garbage", "not_response", "forged_port"]), "arg": rng.randrange(1000), "t": base["timeout"], "tie": True})
+            dels.append({"k": "genuine", "arg": 0, "t": round(base["timeout"] + rng.choice([0.001, 0.5, 30.0]), 6)})
+            opts["ignore_errors"] = True
+            opts["ignore_unexpected"] = True
         base.update({"dest": dest, "opts": opts, "deliveries": dels, "port": rng.choice([53, 5353])})
         return base
     if r < 0.8:
@@ -363,6 +388,7 @@ def gen_case(seed, tier):
         base["end_pos"] = rng.randrange(0, 400)
         base["max_recv"] = [rng.choice([1, 2, 3, 7, 100]) for _ in range(rng.choice([0, 0, 5, 40]))]
         base["ignore_trailing"] = rng.random() < 0.2
+        base["tie_at_deadline"] = rng.random() < 0.12
         return base
     if r < 0.9:
         base["kind"] = "tcp_send"
@@ -403,6 +429,10 @@ def _udp_materialise(case, q, qwire):
             variant, kind = "textual", "genuine"
         elif k == "mcast_other":
             variant, kind = "other_unicast", "genuine"
+        elif k == "forged_scope":
+            variant, kind = "scope", "genuine"
+        elif k == "forged_flow":
+            variant, kind = "flow", "genuine"
         junk = bytes(rng.randrange(256) for _ in range(64))
         payload = build_datagram(q, qwire, kind, d["arg"], i, junk)
         out.append((d["t"], payload, _src(case["dest"], case["port"], variant), k))
@@ -652,6 +682,10 @@ def _run_udp(case, res, log):
             res.probes.inc("udp_multicast_other_source_accepted")
         elif f == "accept:rcode_noq":
             res.probes.inc("udp_rcode_empty_question_accepted")
+    if any(d.get("tie") for d in case["deliveries"]):
+        res.probes.inc("wait_started_exactly_at_deadline")
+    if any(d["k"] in ("forged_scope", "forged_flow") for d in case["deliveries"]) and case["dest"] in ("v6",):
+        res.probes.inc("udp_forged_scope_or_flow")
     if want[0] == "timeout":
         res.probes.inc("udp_timeout_at_deadline")
         if any(k == "genuine" and t >= case["timeout"] for t, _, _, k in mats):
@@ -695,6 +729,11 @@ def _tcp_recv_script(case, q):
     endpos = case["end_pos"] % (len(stream) + 1)
     data = stream if end in ("none",) else stream[:endpos]
     rx = _chunks(data, case["cuts"], case["gaps"], case.get("all_single"))
+    if case.get("tie_at_deadline") and len(data) > 3:
+        # first part early, a middle part exactly at the deadline, the rest afterwards
+        a, b2 = 1 + case["end_pos"] % (len(data) - 2), len(data) - 1
+        b2 = max(a + 1, min(b2, a + 1 + case["end_pos"] % 7))
+        rx = [(0.0001, data[:a]), (case["timeout"], data[a:b2]), (round(case["timeout"] + 0.25, 6), data[b2:])]
     last_t = rx[-1][0] if rx else 0.0
     if end == "eof":
         rx.append((round(last_t + 0.0003, 6), "EOF"))
@@ -824,6 +863,8 @@ def _run_tcp_recv(case, res, log):
         log.add(world, norm)
         res.sim_seconds += VT.elapsed()
     nbytes_chunks = [len(c) for _, c in rx if not isinstance(c, str)]
+    if case.get("tie_at_deadline"):
+        res.probes.inc("wait_started_exactly_at_deadline")
     if nbytes_chunks and max(nbytes_chunks) == 1:
         res.probes.inc("tcp_chunk_size_1")
     if want and want[-1] == ("exc", "EOFError"):
@@ -1150,6 +1191,79 @@ def _run_tcp_full(case, res, log):
     res.state(case["kind"], case["connect"][0], case["reply"], tuple(sorted(set(outs.values()))))
 
 
+def _run_tick(case, res, log):
+    """The clock ticks at every read (simulated CPU cost), so a datagram / fragment consumed just
+    before the deadline leaves the next wait with zero time left.  Nothing may be returned after
+    the deadline and the wait must end with Timeout at (about) the deadline."""
+    dns = _d
+    import dns.asyncbackend
+
+    q = make_query(case)
+    qwire = q.to_wire()
+    T = case["timeout"]
+    src = ("10.0.0.1", 53)
+    outs = {}
+    for world in ("sync", "async"):
+        if case.get("world") not in (None, world):
+            continue
+        net = netsim.reset_network()
+        VT.reset(7000.0)
+        junk = bytes((i * 7 + 3) % 256 for i in range(64))
+        if case["transport"] == "udp":
+            skip = build_datagram(q, qwire, case["skip_kind"], 17, 1, junk)
+            net.udp_scripts["*"] = UdpScript([(T - case["before"], skip, src), (T + case["late"], genuine_wire(q, 2), src)])
+        else:
+            g = genuine_wire(q, 2)
+            frame = len(g).to_bytes(2, "big") + g
+            net.tcp_scripts["*"] = TcpScript(connect=("ok", 0.0), rx=[(0.001, frame[:1]), (T - case["before"], frame[1:9]), (T + case["late"], frame[9:])], rx_after_request=True)
+        backend = dns.asyncbackend.get_backend("asyncio")
+        VT.tick = case["tick"]
+        try:
+            try:
+                if world == "sync":
+                    if case["transport"] == "udp":
+                        r = dns.query.udp(q, "10.0.0.1", timeout=T, ignore_errors=True, ignore_unexpected=True)
+                    else:
+                        r = dns.query.tcp(q, "10.0.0.1", timeout=T)
+                    out = ("ok",)
+                else:
+
+                    async def go():
+                        if case["transport"] == "udp":
+                            return await dns.asyncquery.udp(q, "10.0.0.1", timeout=T, ignore_errors=True, ignore_unexpected=True, backend=backend)
+                        return await dns.asyncquery.tcp(q, "10.0.0.1", timeout=T, backend=backend)
+
+                    r, exc = netsim.run_async(go, net)
+                    if exc is not None:
+                        raise exc
+                    out = ("ok",)
+            except SimDeadlock:
+                out = ("hang",)
+            except SimBusyWait:
+                raise
+            except Exception as e:  # noqa: BLE001
+                out = ("exc", type(e).__name__)
+        finally:
+            VT.tick = 0.0
+        elapsed = VT.elapsed()
+        tag = f"[{world}] {case['transport']} with a ticking clock (tick {case['tick']}): skippable data {case['before']}s before the {T}s deadline, the rest {case['late']}s after it"
+        if out[0] == "ok":
+            raise Violation("C18:returned-after-deadline", f"{tag}: a message completed after the deadline was returned (after {elapsed:.4f}s)")
+        if out[0] == "hang":
+            raise Violation("C18:hang", f"{tag}: waits without bound once the remaining time is zero")
+        if out[1] != "Timeout":
+            raise Violation("C18:wrong-exception", f"{tag}: {out[1]} instead of Timeout")
+        if elapsed > T + 0.01:
+            raise Violation("C18:timeout-time", f"{tag}: Timeout only after {elapsed:.4f}s")
+        outs[world] = out
+        log.add(world, out)
+        res.sim_seconds += elapsed
+    res.probes.inc("wait_started_with_zero_time_left")
+    res.faults.inc("clock_tick_cpu_cost")
+    res.nontrivial = True
+    res.state("tick", case["transport"])
+
+
 def run_case(case, keep_log=False):
     res = RunResult()
     log = EventLog(keep=keep_log)
@@ -1161,6 +1275,8 @@ def run_case(case, keep_log=False):
                 case.get("max_recv"), case.get("tx_accept"), case.get("connect"), case.get("reply"), case.get("udp_first"), case.get("nmsg"))
         if k == "udp":
             _run_udp(case, res, log)
+        elif k == "tick":
+            _run_tick(case, res, log)
         elif k == "tcp_recv":
             _run_tcp_recv(case, res, log)
         elif k == "tcp_send":
@@ -1183,6 +1299,8 @@ def shrink(case):
             c = copy.deepcopy(case)
             c["world"] = w
             yield c
+    if case["kind"] == "tick":
+        return
     if case["kind"] == "udp":
         d = case["deliveries"]
         for i in range(len(d)):
